@@ -2,9 +2,9 @@ package ir
 
 import (
 	"fmt"
-	"os"
 	"go/token"
 	"go/types"
+	"os"
 	"sort"
 	"strconv"
 	"strings"
@@ -801,7 +801,7 @@ type Analysis struct {
 	// with their loops (a callee with loops is inlined at one call site only - the first one explored)
 	Headers   []*ssa.BasicBlock
 	loopOwner map[*ssa.Function]string
-	unrolled  map[*ssa.BasicBlock]bool // loop heads passed through (loops over a table of function values)
+	unrolled  map[*ssa.BasicBlock]bool    // loop heads passed through (loops over a table of function values)
 	Segs      map[*ssa.BasicBlock][]*Path // nil key = from entry
 	Start     map[*ssa.BasicBlock]*State
 	Problems  []string
@@ -857,15 +857,15 @@ func LoopBlocks(h *ssa.BasicBlock) map[*ssa.BasicBlock]bool {
 func HasLoop(fn *ssa.Function) bool { return len(LoopHeaders(fn)) > 0 }
 
 type explorer struct {
-	an     *Analysis
-	opt    *Options
+	an           *Analysis
+	opt          *Options
 	unrollPasses int
-	isHdr  map[*ssa.BasicBlock]bool
-	from   *ssa.BasicBlock
-	out    []*Path
-	ids    map[ssa.Instruction]string
-	budget int
-	work   *int
+	isHdr        map[*ssa.BasicBlock]bool
+	from         *ssa.BasicBlock
+	out          []*Path
+	ids          map[ssa.Instruction]string
+	budget       int
+	work         *int
 }
 
 // Analyze explores fn from init (a state with one root frame prepared by
